@@ -237,6 +237,24 @@ theorem fps_zero_cases {W U : Nat} {c : BorrowCommon} {sp : BorrowSide} {v : Bor
     · simp [h0]
     · simp [h0, h1, h2]
 
+/-- AUDIT (long-side counterpart of `fps_zero_cases`, which only covers `is_long = false`): no
+borrowing fee accrues for the long side without open interest in tokens, or (by default) when
+it is the smaller side — provided the reserved value `tokens · max index price` is computable
+(otherwise the result is the overflow error, second example below). -/
+theorem fps_zero_cases_long {W U : Nat} {c : BorrowCommon} {sp : BorrowSide} {v : BorrowView} :
+    (v.oiTokens = 0 → borrowingFactorPerSecond W U c sp true v = .ok 0) ∧
+    (c.skipSmaller = true → v.oiLong < v.oiShort → v.oiTokens * v.idxMax < 2 ^ W →
+      borrowingFactorPerSecond W U c sp true v = .ok 0) := by
+  constructor
+  · intro h
+    have : 0 < 2 ^ W := Nat.pos_of_ne_zero (by simp)
+    unfold borrowingFactorPerSecond checkedMul toU; simp [h, this]
+  · intro h1 h2 h3; unfold borrowingFactorPerSecond checkedMul toU
+    simp only [if_true, h3]
+    by_cases h0 : v.oiTokens * v.idxMax = 0
+    · simp [h0]
+    · simp [h0, h1, h2]
+
 /-- a position's pending borrowing fee is a natural number (never negative); it is an error
 exactly when the position's factor exceeds the cumulative one or the value does not fit — and
 for reachable states the first cannot happen (`totalBorrowing_exact`). -/
@@ -261,5 +279,75 @@ example : (BorrowSys.init.run 64 (10 ^ 9) [.add, .settle 0 (5 * 10 ^ 12), .updat
 example : updateTotalBorrowing 64 (10 ^ 9) (5 * 10 ^ 12) 3120 (10 ^ 12) 3620 21840000 = .ok 9860000 := by decide
 example : kinkFactor 64 (10 ^ 9) ⟨true, 10 ^ 9, true⟩ ⟨10 ^ 9, 0, 750000000, 19, 47, 0⟩ 0 (9 * 10 ^ 11) (10 ^ 12)
     = .ok (some (17 + 28 * 150000000 / 250000000)) := by rfl
+
+/-! #### audit additions -/
+/-- `nextCumulativeBorrowingFactor … = .ok` with a non-zero delta (long side, kink model above
+the optimal usage: 23 per second · 100 s): hypothesis of `cumFactor_monotone`. -/
+example : nextCumulativeBorrowingFactor 64 (10 ^ 9) ⟨true, 10 ^ 9, true⟩ ⟨10 ^ 9, 0, 750000000, 19, 47, 0⟩ true
+    ⟨3 * 10 ^ 12, 10 ^ 12, 1500 * 10 ^ 6, 2 * 10 ^ 9, 2200, 2000⟩ 3620 100 = .ok (5920, 2300) := by decide +kernel
+example : 5920 = 3620 + 2300 ∧ 3620 ≤ 5920 :=
+  cumFactor_monotone (W := 64) (U := 10 ^ 9) (c := ⟨true, 10 ^ 9, true⟩) (sp := ⟨10 ^ 9, 0, 750000000, 19, 47, 0⟩)
+    (isLong := true) (v := ⟨3 * 10 ^ 12, 10 ^ 12, 1500 * 10 ^ 6, 2 * 10 ^ 9, 2200, 2000⟩) (dur := 100) (by decide +kernel)
+/-- `updateBorrowing … = .ok` raising BOTH sides (no skipping of the smaller side):
+hypothesis of `update_monotone`. -/
+example : updateBorrowing 64 (10 ^ 9) ⟨false, 10 ^ 9, true⟩ ⟨10 ^ 9, 0, 750000000, 19, 47, 0⟩ ⟨10 ^ 9, 0, 750000000, 19, 47, 0⟩
+    ⟨3 * 10 ^ 12, 10 ^ 12, 1500 * 10 ^ 6, 2 * 10 ^ 9, 2200, 2000⟩ ⟨3 * 10 ^ 12, 10 ^ 12, 0, 4 * 10 ^ 12, 1, 1⟩ true 3620 777 100
+    = .ok (5920, 1177) := by decide +kernel
+example : 3620 ≤ 5920 ∧ 777 ≤ 1177 :=
+  update_monotone (W := 64) (U := 10 ^ 9) (c := ⟨false, 10 ^ 9, true⟩) (spL := ⟨10 ^ 9, 0, 750000000, 19, 47, 0⟩)
+    (spS := ⟨10 ^ 9, 0, 750000000, 19, 47, 0⟩) (vL := ⟨3 * 10 ^ 12, 10 ^ 12, 1500 * 10 ^ 6, 2 * 10 ^ 9, 2200, 2000⟩)
+    (vS := ⟨3 * 10 ^ 12, 10 ^ 12, 0, 4 * 10 ^ 12, 1, 1⟩) (pv := true) (dur := 100) (by decide +kernel)
+/-- `updateTotalBorrowing_spec` instantiated on a DECREASE of the position (negative delta). -/
+example : ((9860000 : Nat) : Int) = (21840000 : Nat) + ((10 ^ 12 * 3620 / 10 ^ 9 : Nat) : Int) - ((5 * 10 ^ 12 * 3120 / 10 ^ 9 : Nat) : Int) :=
+  updateTotalBorrowing_spec (W := 64) (by decide)
+/-- the invariant holds, non-trivially, on the state reached by the run of the first example
+(two open positions with different factors below the cumulative one). -/
+example : BorrowSys.Inv (10 ^ 9) ⟨3620, 9860000, [(10 ^ 12, 3620), (2 * 10 ^ 12, 3120)]⟩ := by
+  refine ⟨by decide, fun x hx => ?_⟩
+  simp only [List.mem_cons, List.not_mem_nil, or_false] at hx
+  rcases hx with rfl | rfl <;> decide
+/-- ... and it is NOT trivially true: a wrong total violates it. -/
+example : ¬ BorrowSys.Inv (10 ^ 9) ⟨3620, 9860001, [(10 ^ 12, 3620), (2 * 10 ^ 12, 3120)]⟩ := by
+  intro h; exact absurd h.1 (by decide)
+/-- `inv_step` / `cum_monotone_history` on that state: a further update and a close. -/
+example : (BorrowSys.step 64 (10 ^ 9) ⟨3620, 9860000, [(10 ^ 12, 3620), (2 * 10 ^ 12, 3120)]⟩ (.settle 1 0))
+    = ⟨3620, 3620000, [(10 ^ 12, 3620), (0, 3620)]⟩ := by decide
+/-- `pending_nonneg` instantiated on the reached state (OI `3·10^12`, next factor 5920). -/
+example : 9860000 ≤ 3 * 10 ^ 12 * 5920 / 10 ^ 9 :=
+  pending_nonneg (U := 10 ^ 9) (s := ⟨3620, 9860000, [(10 ^ 12, 3620), (2 * 10 ^ 12, 3120)]⟩) (oi := 3 * 10 ^ 12) (F := 5920)
+    ⟨by decide, fun x hx => by
+      simp only [List.mem_cons, List.not_mem_nil, or_false] at hx
+      rcases hx with rfl | rfl <;> decide⟩ (by decide) (by decide)
+/-- ALL hypotheses of `pending_defined` at once, for the non-trivial history of the first
+example and the long-side view above: pending fees `17760000 − 9860000 = 7900000`. -/
+example : totalPendingBorrowingFees 64 (10 ^ 9) ⟨true, 10 ^ 9, true⟩ ⟨10 ^ 9, 0, 750000000, 19, 47, 0⟩ true
+    ⟨3 * 10 ^ 12, 10 ^ 12, 1500 * 10 ^ 6, 2 * 10 ^ 9, 2200, 2000⟩ 3620 100 9860000 = .ok 7900000 := by decide +kernel
+example : True := by
+  have h := pending_defined (W := 64) (U := 10 ^ 9) (c := ⟨true, 10 ^ 9, true⟩) (sp := ⟨10 ^ 9, 0, 750000000, 19, 47, 0⟩)
+    (isLong := true) (v := ⟨3 * 10 ^ 12, 10 ^ 12, 1500 * 10 ^ 6, 2 * 10 ^ 9, 2200, 2000⟩) (dur := 100) (nx := 5920) (d := 2300)
+    [.add, .settle 0 (5 * 10 ^ 12), .update 3120, .add, .settle 1 (2 * 10 ^ 12), .update 500, .settle 0 (10 ^ 12)]
+    (by decide +kernel) (by decide +kernel) (by decide) (by decide +kernel)
+  obtain ⟨_, _⟩ := h
+  trivial
+/-- `kink_spec` at or below the optimal usage (no additional slope), and the disabled model. -/
+example : kinkFactor 64 (10 ^ 9) ⟨true, 10 ^ 9, true⟩ ⟨10 ^ 9, 0, 750000000, 19, 47, 0⟩ 0 (5 * 10 ^ 11) (10 ^ 12)
+    = .ok (some 9) ∧
+    kinkFactor 64 (10 ^ 9) ⟨true, 10 ^ 9, true⟩ ⟨10 ^ 9, 0, 0, 19, 47, 0⟩ 0 (5 * 10 ^ 11) (10 ^ 12) = .ok none := by
+  constructor <;> rfl
+/-- `fps_zero_cases` / `fps_zero_cases_long`: the premises are satisfiable (short side smaller;
+long side smaller), and the long-side overflow case excluded by the extra premise is an error. -/
+example : borrowingFactorPerSecond 64 (10 ^ 9) ⟨true, 10 ^ 9, true⟩ ⟨10 ^ 9, 0, 750000000, 19, 47, 0⟩ false
+    ⟨3 * 10 ^ 12, 10 ^ 12, 1500 * 10 ^ 6, 2 * 10 ^ 9, 2200, 2000⟩ = .ok 0 :=
+  fps_zero_cases.2 rfl (by decide)
+example : borrowingFactorPerSecond 64 (10 ^ 9) ⟨true, 10 ^ 9, true⟩ ⟨10 ^ 9, 0, 750000000, 19, 47, 0⟩ true
+    ⟨10 ^ 12, 3 * 10 ^ 12, 1500 * 10 ^ 6, 2 * 10 ^ 9, 2200, 2000⟩ = .ok 0 :=
+  fps_zero_cases_long.2 rfl (by decide) (by decide)
+example : borrowingFactorPerSecond 64 (10 ^ 9) ⟨true, 10 ^ 9, true⟩ ⟨10 ^ 9, 0, 750000000, 19, 47, 0⟩ true
+    ⟨1, 2, 2 ^ 63, 1, 2, 1⟩ = .error .ovf := by decide +kernel
+/-- `position_fee_spec`: both branches on concrete numbers. -/
+example : pendingBorrowingFeeValue 64 (10 ^ 9) (2 * 10 ^ 12) 3120 5920 = .ok 5600000 ∧
+    pendingBorrowingFeeValue 64 (10 ^ 9) (2 * 10 ^ 12) 5920 3120 = .error .comp := by decide
+example : pendingBorrowingFeeValue 64 (10 ^ 9) (2 * 10 ^ 12) 3120 5920 = .ok (2 * 10 ^ 12 * (5920 - 3120) / 10 ^ 9) :=
+  (position_fee_spec 64 (10 ^ 9) (2 * 10 ^ 12) 3120 5920).1 (by decide) (by decide) (by decide)
 
 end Gmx.C13
